@@ -122,14 +122,19 @@ class RefModel:
         self.assoc_order.remove(s)
 
     def remove_asset_from_assoc(self, h, s):
+        """The asset leaves every field of the association; if it was the only
+        member of a field the association goes as a whole.  The *record* of a
+        removed association keeps exactly the members the real object keeps (the
+        left field is processed first), because operations on a removed
+        association that is value-equal to a live one are unspecified and the
+        generator has to recognise that case."""
         a = self.assocs[s]
-        if any(h in side and len(side) == 1 for side in (a.left, a.right)):
-            # a side would become empty: the association goes as a whole (its
-            # record keeps the members it had, like the real object does)
-            self.remove_assoc(s)
-            return
         for side in (a.left, a.right):
-            side[:] = [x for x in side if x != h]
+            if h in side:
+                if len(side) == 1:
+                    self.remove_assoc(s)
+                    return
+                side[:] = [x for x in side if x != h]
 
     def remove_asset(self, h):
         for s in list(self.assocs_of(h)):
